@@ -180,7 +180,7 @@ theorem visItems_append (a b : List Rec) : visItems (a ++ b) = visItems a ++ vis
 theorem visItems_nil : visItems [] = [] := rfl
 
 /-- the item of a shown hook call -/
-def tItem (v f : Event) : TraceItem := { ev := v, on := f.on, off := f.off, insideLoop := false, insideJump := false }
+@[reducible] def tItem (v f : Event) : TraceItem := { ev := v, on := f.on, off := f.off, insideLoop := false, insideJump := false }
 
 theorem visItems_hook (v f : Event) (st : List Frame) :
     visItems [(.hook v f, st)] = if vis st then [tItem v f] else [] := by
